@@ -176,8 +176,9 @@ def opacity_and_mode(ctx, rule_o='K5', rule_m='K6'):
             ctx.inst(rule_o, fn, ok, 'per-pixel opacity = %s; must be mul_un8(layer opacity parameter, cel opacity)' % show(op)[:120], c.span,
                      key=ctx.key(fn, rule_o, 'opacity', ''))
             okm = fterm[0] == 'call' and fterm[1] == F + 'blend_mode_to_blend_fn' and is_param(fterm[2][0], bm)
-            ctx.inst(rule_m, fn, okm, 'blend function = %s; must be blend_mode_to_blend_fn(*blend_mode)' % show(fterm)[:100], c.span,
-                     key=ctx.key(fn, rule_m, 'fn', ''))
+            if rule_m is not None:
+                ctx.inst(rule_m, fn, okm, 'blend function = %s; must be blend_mode_to_blend_fn(*blend_mode)' % show(fterm)[:100], c.span,
+                         key=ctx.key(fn, rule_m, 'fn', ''))
     ctx.floor('per-pixel blend calls', ncalls, 2)
     wc = ctx.anchor(AF + 'write_cel')
     if wc is not None:
@@ -204,8 +205,9 @@ def opacity_and_mode(ctx, rule_o='K5', rule_m='K6'):
                      % show(o)[:120], c.span, key=ctx.key(wc.name, rule_o, 'outer', nm))
             m = at[bm]
             okm = m[0] == 'call' and m[1] == 'asefile::layer::Layer::blend_mode' and layer_of(m[2][0])
-            ctx.inst(rule_m, 'write_cel->' + nm.split('::')[-1], okm, 'blend mode = %s; must be self.layer(cel.data.layer_index).blend_mode()'
-                     % show(m)[:120], c.span, key=ctx.key(wc.name, rule_m, 'mode', nm))
+            if rule_m is not None:
+                ctx.inst(rule_m, 'write_cel->' + nm.split('::')[-1], okm, 'blend mode = %s; must be self.layer(cel.data.layer_index).blend_mode()'
+                         % show(m)[:120], c.span, key=ctx.key(wc.name, rule_m, 'mode', nm))
             okd = is_param_path(at[cd], celp, ['data'])
             ctx.inst(rule_o, 'write_cel->' + nm.split('::')[-1] + '#cel', okd, 'cel data = %s; must be the data of the cel being drawn' % show(at[cd]),
                      c.span, key=ctx.key(wc.name, rule_o, 'celdata', nm))
